@@ -96,6 +96,39 @@ val hs_confirmed : rn_hs_result -> bool
 
 val status_after_handshake : rn_hs_result -> rn_status
 
+type rn_read =
+| RdOk
+| RdGarbled
+| RdBlocked
+
+val rn_read_line : bool -> bool -> rn_read
+
+type 'a rn_line = { ln_win : bool; ln_body : 'a option }
+
+type rn_out_msg =
+| OAct of n_wire_action
+| OCfg of n_wire_config
+| OFail
+
+type rn_hs2 = { h2_to_server : (rn_out_msg * rn_str) list;
+                h2_to_client : (rn_out_msg * rn_str) list;
+                h2_status : rn_status; h2_cli_win : bool }
+
+val rn_nl_to_client : rn_env -> bool -> bool -> rn_str
+
+val rn_nl_to_server : rn_env -> bool -> bool -> rn_str
+
+val rn_reader_from_client : rn_env -> bool -> bool
+
+val rn_reader_from_server : rn_env -> bool -> bool -> bool
+
+val rn_hs2_fail :
+  rn_env -> bool -> bool -> (rn_out_msg * rn_str) list -> rn_hs2
+
+val rn_handshake2 :
+  rn_env -> bool -> n_wire_action rn_line -> n_wire_config rn_line option ->
+  rn_hs2
+
 val rn_has_marker : coq_N list list -> coq_N list -> bool
 
 val rn_end_in : coq_N list -> bool
